@@ -64,7 +64,11 @@ def run(ctx):
         if v["sig"] == "real-poller-measurement":
             viol.append({"sig": "phc-value-not-current", "detail": v["detail"], "replay": v.get("replay", "")})
     ctx.log("real poller: %s scripts, %s steps" % (real.get("evaluations"), real.get("steps")))
-    inconclusive = incon or wincon or real.get("inconclusive")
+    # ... and the whole binary with reference-id names of every spelling on its command line
+    vb, _vs, name_info = c13real.run_phc_names(ctx)
+    viol += vb
+    ctx.log("reference-id names through the command line: %s" % {k: v for k, v in name_info.items() if k != "names"})
+    inconclusive = incon or wincon or real.get("inconclusive") or name_info.get("inconclusive")
     if agg["shards_lost"]:
         inconclusive = "%d shards did not finish" % agg["shards_lost"]
     elif judged < agg["evaluations"] * 0.99 and not viol:
@@ -84,6 +88,7 @@ def run(ctx):
         "negative_offsets": neg,
         "judged_by_exact_oracle": judged,
         "file_readbacks": agg["file_checks"],
+        "reference_id_names_whole_binary": name_info,
         "poller_level_histories": wagg["evaluations"],
         "poller_level_measurement_messages": phc_msgs,
     }
